@@ -190,20 +190,21 @@ contains
        call min_index(num_uniques + 1 - i, points(:, i:num_uniques), match)
        ! Shift ``match`` based on the slice ``points(:, i:...)``.
        match = match + i - 1
-       if (match /= i) then
-          swap = points(:, match)
-          if (all(swap == points(:, i - 1))) then
-             ! This means ``match`` is a duplicate.
-             points(:, match) = points(:, num_uniques)
-             points(:, num_uniques) = swap
-             num_uniques = num_uniques - 1
-          else
+       swap = points(:, match)
+       if (all(swap == points(:, i - 1))) then
+          ! This means ``match`` is a duplicate (also when ``match == i``).
+          ! Move it past the end and examine slot ``i`` again.
+          points(:, match) = points(:, num_uniques)
+          points(:, num_uniques) = swap
+          num_uniques = num_uniques - 1
+       else
+          if (match /= i) then
              points(:, match) = points(:, i)
              points(:, i) = swap
           end if
+          ! Increment for next iteration.
+          i = i + 1
        end if
-       ! Increment for next iteration.
-       i = i + 1
     end do
 
   end subroutine sort_in_place
